@@ -41,19 +41,26 @@ def tol_month(ms):
 
 
 def classify(case, raw, impl, end, ms, mt):
-    """Month-energy predicate on one run of the implementation.
-    Returns (n_months_ok, failures) with failures = [(key, month, got, want, detail)]."""
+    """Month-energy predicate on one run of the implementation."""
     run = impl["runs"][end]
-    start = case.get("start", 1)
-    load, hour = run["load"], run["hour"]
+    return classify_arrays(run["load"], run["hour"], ms, mt, case.get("start", 1), end)
+
+
+def classify_arrays(load, hour, ms, mt, start, end, year=2019):
+    """Month-energy predicate on one (load, hour) sequence: signed integrals between consecutive
+    month-end breakpoints of the calendar year `year` vs the month's net load `ms[m]["net"]`.
+    Returns (n_months_ok, failures) with failures = [(key, month, got, want, detail)].
+    The known-finding signature `same-day-pulse-clamped` requires BOTH pulses on the same day of a
+    retained month and a clamped start; a single clamped pulse conserves energy on the unchanged code
+    (it is shifted, not shortened) and is judged by the plain energy predicate."""
     fails = []
-    degenerate = any((not math.isfinite(r[k])) or r[k] > 24 * 27 for r in mt for k in ("dcl", "dhl"))
+    degenerate = any((not math.isfinite(r[k])) or r[k] > 24 * 27 or r[k] < 0 for r in mt for k in ("dcl", "dhl"))
     if degenerate or not all(math.isfinite(x) for x in load + hour):
         # a duration that is inf/nan or longer than any month: peak == average up to rounding
         fails.append(("degenerate-duration" if degenerate else "nonfinite-sequence", None, None, None,
-                      "a peak duration is non-finite or longer than a month: " + str([(r["dcl"], r["dhl"]) for r in mt])))
+                      "a peak duration is non-finite, negative or longer than a month: " + str([(r["dcl"], r["dhl"]) for r in mt])))
         return 0, fails
-    ends = [H.oracle_month_end(i) for i in range(start, end + 1)]
+    ends = [H.oracle_month_end(i, year) for i in range(start, end + 1)]
     ints = H.month_integrals(load, hour, ends)
     if ints is None:
         fails.append(("month-end-breakpoint-missing", None, None, None, "a month end is not a breakpoint of the hour array"))
@@ -64,7 +71,7 @@ def classify(case, raw, impl, end, ms, mt):
     for i, got in zip(range(start, end + 1), ints):
         m = (i - 1) % 12
         want = ms[m]["net"]
-        while hour[j] != float(H.oracle_month_end(i)) or j < 2:
+        while hour[j] != float(H.oracle_month_end(i, year)) or j < 2:
             j += 1
         rate = Fraction(load[j])
         if abs(float(got - want)) <= tol_month(ms[m]):
@@ -72,8 +79,8 @@ def classify(case, raw, impl, end, ms, mt):
             continue
         r = mt[m]
         retained = H.ipf(i, start, end)
-        noon_c = (H.oracle_month_end(i - 1) + 1) + 24 * r["dayc"] + 12
-        noon_h = (H.oracle_month_end(i - 1) + 1) + 24 * r["dayh"] + 12
+        noon_c = (H.oracle_month_end(i - 1, year) + 1) + 24 * r["dayc"] + 12
+        noon_h = (H.oracle_month_end(i - 1, year) + 1) + 24 * r["dayh"] + 12
         detail = {"month": i, "got_kWh": float(got), "want_kWh": float(want), "rate_kW": float(rate), "record": r}
         if retained and r["dayc"] == r["dayh"] and r["pcl"] > 0 and r["phl"] > 0 and (r["dcl"] / 2 > noon_c or r["dhl"] / 2 > noon_h):
             fails.append(("same-day-pulse-clamped", i, got, want, detail))
@@ -82,11 +89,63 @@ def classify(case, raw, impl, end, ms, mt):
     return ok, fails
 
 
+def history_stream(ctx, phys, n_seq):
+    """Call-history stream (shared with C08): sequences of real HybridLoad objects with years [2019] /
+    [2020] (leap, 8784-hour profile) / [2021] and different horizons, interleaved with direct calendar
+    helper calls, each sequence executed in order in ONE fresh interpreter.  The energy predicate is
+    applied to every object: month integrals between consecutive month-end breakpoints of the object's
+    own calendar year vs the exact month sums of its own profile.  Replay = the call sequence."""
+    from concurrent.futures import ThreadPoolExecutor
+
+    seqs = H.gen_histories(ctx.rng, n_seq)
+    with ThreadPoolExecutor(8) as ex:
+        outs = list(ex.map(lambda q: H.history_subprocess(q, phys), seqs))
+    for q, (seq, o) in enumerate(zip(seqs, outs)):
+        if "error" in o:
+            ctx.infra("history run failed: " + o["error"][-200:])
+            continue
+        for pos, (it, res) in enumerate(zip(seq, o["results"])):
+            if it["op"] != "hybrid":
+                continue
+            y, n = it["years"][0], it["months"]
+            kind = it["case"]["kind"]
+            ctx.count(f"history:object-years-{y}")
+            ctx.case(("history", q, pos, y, n, kind, it["case"]["pseed"]), "load" in res)
+            if "raise" in res:
+                ctx.count("history:raise-" + res["raise"])
+                continue
+            raw = H.raw_of_case(it["case"])
+            ms = H.month_sums(raw, y)
+            mt = H.month_table(res["monthly"])
+            ok, fails = classify_arrays(res["load"], res["hour"], ms, mt, 1, n, year=y)
+            ctx.count("history:months-conserved", ok)
+            replay = {"call_sequence_in_one_process": seq[:pos + 1], "failing_call": pos, "phys": phys,
+                      "how": "hybridlib.history_run(call_sequence, phys) in a fresh interpreter (python harness/hybridlib.py --history)"}
+            for key, month, got, want, detail in fails:
+                ctx.count("history-fail:" + key)
+                if key == "month-end-breakpoint-missing" and all(math.isfinite(x) for x in res["load"] + res["hour"]):
+                    # the axis does not follow the object's own calendar: report the energy over the horizon as well
+                    tot = sum(Fraction(a) * (Fraction(h1) - Fraction(h0)) for a, h0, h1 in zip(res["load"][1:], res["hour"][:-1], res["hour"][1:]))
+                    wtot = sum(ms[(i - 1) % 12]["net"] for i in range(1, n + 1))
+                    detail = f"{detail}; the sequence integrates to {float(tot):.3f} kWh over the horizon, the profile's net load over {n} months is {float(wtot):.3f} kWh"
+                what = (f"history sequence {q}, call {pos}: HybridLoad(years=[{y}], {n} months, {kind}) after {pos} earlier call(s): " +
+                        (str(detail) if month is None else
+                         f"month {month} integrates to {float(got):.6f} kWh, the profile's net load is {float(want):.6f} kWh"))
+                ctx.finding(key if key in ("same-day-pulse-clamped", "degenerate-duration") else "history-" + key, what, dict(replay, detail=detail))
+            if not fails:
+                tot = sum(Fraction(a) * (Fraction(h1) - Fraction(h0)) for a, h0, h1 in zip(res["load"][1:], res["hour"][:-1], res["hour"][1:]))
+                want = sum(ms[(i - 1) % 12]["net"] for i in range(1, n + 1))
+                if abs(float(tot - want)) > sum(tol_month(ms[(i - 1) % 12]) for i in range(1, n + 1)):
+                    ctx.finding("history-horizon-energy", f"history sequence {q}, call {pos}: HybridLoad(years=[{y}], {n} months): total {float(tot)} kWh "
+                                f"vs the profile's {float(want)} kWh", replay)
+    ctx.count("history:sequences", len(seqs))
+
+
 def run(ctx: core.Ctx):
-    ctx.rule = ("case = (hourly profile, borehole/ground parameter set, horizon); profiles of 14 kinds (mixed, heating-only, cooling-only, "
+    ctx.rule = ("case = (hourly profile, borehole/ground parameter set, horizon); profiles of 16 kinds (mixed, heating-only, cooling-only, "
                 "months with zero load, one-sided months, peaks forced on the first/last day, both peaks on the same day, peak in the last hour "
-                "of the year, multi-hour plateaus, 1-January plateau, constant, monthly-constant, Atlanta scaled ±); horizons from 1..36 and "
-                "{59,60,61,119,120,240,359,360}; plus arbitrary monthly arrays (tame/long/wild durations) through process_month_loads; "
+                "of the year, multi-hour plateaus, 1-January plateau (both directions), one-direction plateau over 31 Dec/1 Jan (heating / cooling), constant, monthly-constant, Atlanta scaled ±); horizons from 1..36 and "
+                "{59,60,61,119,120,240,359,360}; plus arbitrary monthly arrays (tame/long/wild durations) through process_month_loads and call-history sequences with years 2019/2020/2021; "
                 "distinct = distinct (kind, seed, parameter set, horizon); non-trivial = the run returned a sequence with at least one retained pulse")
     ctx.trusted_base += [
         "translator translate/gen.py + gen_hybrid.py (monthdays/first_month_hour/last_month_hour as functions; 1e-6, 12, 0.1 literals of ground_loads.py)",
@@ -165,6 +224,9 @@ def run(ctx: core.Ctx):
             for dur in (r["dcl"], r["dhl"]):
                 ctx.count("duration:" + ("nonfinite" if not math.isfinite(dur) else "placeholder" if dur <= 2e-6 else "<2h" if dur < 2 else "2-12h" if dur < 12 else "12-26h" if dur < 26 else ">26h"))
     ctx.count("months-conserved", total_months)
+
+    # ------------------------------------------------------------------ call history (several objects in one process)
+    history_stream(ctx, physs[0], 8 if quick else 40)
 
     # ------------------------------------------------------------------ arbitrary monthly arrays
     arr = H.explore_process_only(ctx, 300 if quick else 6000)
